@@ -16,6 +16,7 @@ mod groups;
 mod c11;
 mod c12;
 mod c14;
+mod c15;
 mod c18;
 mod c19;
 mod c20;
@@ -47,6 +48,9 @@ fn main() {
         ("C13", "drive") => c12::drive_c13(rest),
         ("C14", "replay") => c14::replay(rest),
         ("C14", "drive") => c14::drive(rest),
+        ("C15", "drive") => c15::drive_c15(rest),
+        ("C16", "drive") => c15::drive_c16(rest),
+        ("C17", "drive") => c15::drive_c17(rest),
         ("C18", "replay") => c18::replay(rest),
         ("C18", "drive") => c18::drive(rest),
         ("C19", "replay") => c19::replay(rest),
